@@ -114,6 +114,11 @@ CHECKS["C05"] = dict(
    design_ref="DESIGN.md 4.4, 4.6, 6 (C05)",
    note=MV_NOTE + " Real StoreToDisk uses runtime.NumCPU() (16) shards; databases up to a few hundred items.")
 
+CHECKS["C15"] = dict(
+   technique="TLA+ model Skiplist.tla with iterator processes (IterNoBackwards, IterOnlyPresent, IterSeekLands, IterComplete) exhausted by TLC; TLC-simulated behaviours replayed as gate schedules; scans judged by TLC from the call/return log (IterAPI.tla) and through step conformance (Trace_Skiplist.tla)",
+   text="The iterator's SeekFirst/Seek/Next are modelled at the grain of iterator.go (load of the current node's link, helping to unlink a marked current node, re-search after a lost race) next to mutating processes, with ghost sets of the keys present at some / at every moment of each scan; TLC checks the four iterator invariants for every interleaving of the bounded instances. Real scans run under TLC-simulated and random gate schedules (deleting the node under the iterator and its predecessor) and free-running with Refresh and Pause/Resume; IterAPI.tla judges them using only facts true under every linearization (sound), Trace_Skiplist.tla evaluates the model's iterator invariants on the step-conformant real execution (exact).",
+   design_ref="DESIGN.md 4.1, 6 (C13-C15)", note=SL_NOTE)
+
 NOT_YET = "check not built yet (work in progress; see DESIGN.md section 8.1 build order)"
 
 def main():
